@@ -237,3 +237,56 @@ func vh_C18_SharedInitialList() {
 	}
 	vfReach("end")
 }
+
+// two instances sharing ONE http.Client (the second is given the client the first already adopted - through the
+// constructor or through SetHTTPClient): a request through either instance still runs every interceptor registered on
+// THAT instance exactly once, in order, before the transport, which is reached exactly once; header edits arrive
+func vh_C18_SharedClient() {
+	var log []string
+	tr := &vhTransport{log: &log}
+	ics := c18Setup(&log, -1)
+	b := NewSimpleHTTPWithClientAndInterceptors(&http.Client{Transport: tr}, ics[2])
+	var a *SimpleHTTPDef
+	if vfChoose("adopted-via", 2) == 0 {
+		a = NewSimpleHTTPWithClientAndInterceptors(b.GetHTTPClient(), ics[0], ics[1])
+	} else {
+		a = NewSimpleHTTPWithClientAndInterceptors(&http.Client{Transport: tr}, ics[0], ics[1])
+		a.SetHTTPClient(b.GetHTTPClient())
+	}
+	own := func(s *SimpleHTTPDef, ids []string) {
+		log = nil
+		tr.seen = nil
+		var r *ResponseWithError
+		if !vfNoPanic("nopanic-request", func() { r = s.Get("http://h/x") }) {
+			return
+		}
+		var mine []string
+		for _, e := range log {
+			for _, id := range ids {
+				if e == id {
+					mine = append(mine, e)
+				}
+			}
+			if e == "T" {
+				mine = append(mine, e)
+			}
+		}
+		vfAssert("call-log", strings.Join(mine, ",") == strings.Join(append(append([]string{}, ids...), "T"), ","))
+		vfAssert("no-error", r.Err == nil)
+		vfAssert("transport-reached-once", len(tr.seen) == 1)
+		if len(tr.seen) == 1 {
+			for _, id := range ids {
+				k := int(id[1] - '0')
+				vfAssert("header-edits-reach-transport", tr.seen[0].header.Get([]string{"X-V0", "X-V1", "X-V2"}[k]) == c18Vals[k])
+			}
+		}
+	}
+	if vfChoose("first", 2) == 0 {
+		own(a, []string{"I0", "I1"})
+		own(b, []string{"I2"})
+	} else {
+		own(b, []string{"I2"})
+		own(a, []string{"I0", "I1"})
+	}
+	vfReach("end")
+}
